@@ -67,6 +67,9 @@ pub fn run(case: &Value, em: &mut Emitter) {
                 "nm": opt_str(t.get_name()), "rg": t.is_range(), "raw": tok_json(t)});
             let c = |o: std::cmp::Ordering| match o { std::cmp::Ordering::Less => -1, std::cmp::Ordering::Equal => 0, std::cmp::Ordering::Greater => 1 };
             em.emit("ord", json!({"a": res(&w[0]), "b": res(&w[1])}), json!({"k": "ok", "eq": w[0] == w[1], "cmp": c(w[0].cmp(&w[1])), "rcmp": c(w[1].cmp(&w[0]))}));
+            // the three text renderings of a token
+            let t = &w[0];
+            em.emit("render", json!({"a": res(t)}), guard(|| json!({"k": "ok", "display": format!("{}", t), "alt": format!("{:#}", t), "debug": format!("{:?}", t)})));
         }
     }
 }
